@@ -432,6 +432,13 @@ func (bl *ToBoltListener) ExitOrExpr(c *zitiql.OrExprContext) {
 	}
 }
 
+func (bl *ToBoltListener) ExitGroup(c *zitiql.GroupContext) {
+	bl.printDebug(c)
+	if node, ok := bl.peekStack().(*BooleanLogicExprNode); ok {
+		node.grouped = true
+	}
+}
+
 func (bl *ToBoltListener) ExitAndExpr(c *zitiql.AndExprContext) {
 	bl.printDebug(c)
 
@@ -439,6 +446,14 @@ func (bl *ToBoltListener) ExitAndExpr(c *zitiql.AndExprContext) {
 	left := bl.popNode()
 
 	if !bl.HasError() {
+		// The parser nests chains of and/or to the right, so `a and b or c` arrives here with left = a and
+		// right = (b or c). AND binds tighter than OR: unless the right hand side was explicitly parenthesized,
+		// the AND only applies to the first operand of the OR.
+		if orNode, ok := right.(*BooleanLogicExprNode); ok && orNode.op == OrOp && !orNode.grouped {
+			andNode := &BooleanLogicExprNode{left: left, right: orNode.left, op: AndOp}
+			bl.pushStack(&BooleanLogicExprNode{left: andNode, right: orNode.right, op: OrOp})
+			return
+		}
 		bl.pushStack(&BooleanLogicExprNode{left: left, right: right, op: AndOp})
 	}
 }
